@@ -203,6 +203,50 @@ func racUF0(name string, a ...*big.Int) *big.Int {
 	}
 	return z
 }
+// racGlobals folds the package's shared tables and constants into one number: any write to them shows up as a change.
+func racGlobals() uint64 {
+	var h uint64 = 1469598103934665603
+	mix := func(v uint64) { h ^= v; h *= 1099511628211 }
+	bi := func(b *BigInt) {
+		m := b.MathBigInt()
+		mix(uint64(m.BitLen()))
+		mix(uint64(m.Sign() + 1))
+		for _, w := range m.Bits() {
+			mix(uint64(w))
+		}
+	}
+	dec := func(d *Decimal) {
+		mix(uint64(d.Form))
+		mix(uint64(d.Exponent))
+		if d.Negative {
+			mix(7)
+		}
+		bi(&d.Coeff)
+	}
+	for i := range pow10LookupTable {
+		bi(&pow10LookupTable[i])
+	}
+	for i := range digitsLookupTable {
+		mix(uint64(digitsLookupTable[i].digits))
+		bi(&digitsLookupTable[i].border)
+		bi(&digitsLookupTable[i].nborder)
+	}
+	for _, b := range []*BigInt{bigOne, bigTwo, bigFive, bigTen} {
+		bi(b)
+	}
+	for _, d := range []*Decimal{decimalZero, decimalOneEighth, decimalHalf, decimalOne, decimalTwo, decimalThree, decimalEight, decimalMaxInt64, decimalMinInt64, decimalCbrtC1, decimalCbrtC2, decimalCbrtC3, decimalNaN, decimalInfinity, &decimalLn10.unrounded, &decimalInvLn10.unrounded} {
+		dec(d)
+	}
+	for _, c := range []*constWithPrecision{decimalLn10, decimalInvLn10} {
+		for i := range c.vals {
+			dec(&c.vals[i])
+		}
+	}
+	mix(uint64(BaseContext.Precision))
+	mix(uint64(BaseContext.Traps))
+	mix(uint64(len(BaseContext.Rounding)))
+	return h
+}
 func racNegZero(p *big.Int) bool {
 	return p != nil && len(p.Bits()) == 0 && p.Cmp(new(big.Int)) != 0
 }
@@ -568,7 +612,7 @@ func (W *World) racTest(fn *ssa.Function, fc *FuncContract) (string, error) {
 	}
 	sb.WriteString("\nfunc TestVerifReplay(tt__ *testing.T) {\n")
 	sb.WriteString("\tseed__ := int64(racEnvInt(\"VERIF_SEED\", 1))\n\ttrials__ := racEnvInt(\"RAC_TRIALS\", 30000)\n\tonly__ := racEnvInt(\"RAC_ONLY\", -1)\n")
-	sb.WriteString("\tdone_trials__ := 0\n")
+	sb.WriteString("\tdone_trials__ := 0\n\tglobals0__ := racGlobals()\n")
 	sb.WriteString("\tdeadline__ := time.Now().Add(time.Duration(racEnvInt(\"RAC_SECONDS\", 25)) * time.Second)\n")
 	sb.WriteString("\tfor trial__ := 0; trial__ < trials__; trial__++ {\n\t\tif time.Now().After(deadline__) { break }\n")
 	sb.WriteString("\t\trng__ := rand.New(rand.NewSource(seed__*1000003 + int64(trial__)))\n\t\t_ = rng__\n")
@@ -730,6 +774,7 @@ func (W *World) racTest(fn *ssa.Function, fc *FuncContract) (string, error) {
 			fmt.Fprintf(&sb, "\t\tif %s != nil && %s && !racSame(%s, old_%s) {\n\t\t\ttt__.Fatalf(\"RACFAIL trial=%%d kind=frame/%s input: %%s\", trial__, desc__)\n\t\t}\n", p.name, cond, p.name, p.name, p.name)
 		}
 	}
+	sb.WriteString("\t\tif g__ := racGlobals(); g__ != globals0__ {\n\t\t\ttt__.Fatalf(\"RACFAIL trial=%d kind=globals (a shared table or constant of the package was modified) input: %s\", trial__, desc__)\n\t\t}\n")
 	W.racDifferential(&sb, fn, fc, params, call, nres)
 	sb.WriteString("\t\tdone_trials__++\n\t}\n\tfmt.Printf(\"RACDONE trials=%d\\n\", done_trials__)\n}\n")
 	return sb.String(), nil
